@@ -418,11 +418,17 @@ def _regression_cases():
 
 
 def gen_cases(rng, tier):
+    # order: regressions, plain sequences with full dumps (most informative failing inputs), then the wg.fan cases
     cases = _regression_cases()
     P = rng.int(1 << 40, FAN_M - 2)
     _EXPECT['tier'] = tier
     _EXPECT['exh_pairs'] = 0
     _EXPECT['exh_complete'] = False
+    n_sample, n_random = (3000, 6000) if tier == 'thorough' else (2500, 2500)
+    for i in range(n_sample):
+        cases.append(_sampled_bounded_case(rng, 'bounded-sample-%d' % i))
+    for i in range(n_random):
+        cases.append(_random_case(rng, 'random-%d' % i))
     if tier == 'thorough':
         total = 0
         for dims in _bounded_grids():
@@ -431,18 +437,12 @@ def gen_cases(rng, tier):
             total += pairs
         _EXPECT['exh_pairs'] = total
         _EXPECT['exh_complete'] = True
-        n_sample, n_random = 3000, 6000
     else:
-        # depth-0 fan of every grid of the bounded space (all first translations), plus sampled deeper sequences
+        # depth-0 fan of every grid of the bounded space (all first translations)
         for dims in _bounded_grids():
             N = len(_cells(dims))
             cases.append({'name': 'fan-d0-%s' % 'x'.join(map(str, dims)),
                           'lines': _header(dims, range(1, N + 1)) + ['wg.fan -1 %d' % P], 'meta': {'dims': dims}})
-        n_sample, n_random = 400, 350
-    for i in range(n_sample):
-        cases.append(_sampled_bounded_case(rng, 'bounded-sample-%d' % i))
-    for i in range(n_random):
-        cases.append(_random_case(rng, 'random-%d' % i))
     return cases
 
 
